@@ -22,11 +22,11 @@ pub uninterp spec fn spec_htlc_timeout_tx_weight(f: ChannelTypeFeatures) -> u64;
 pub uninterp spec fn spec_htlc_success_tx_weight(f: ChannelTypeFeatures) -> u64;
 #[verifier::external_body]
 pub fn htlc_timeout_tx_weight(f: &ChannelTypeFeatures) -> (r: u64)
-    ensures r == spec_htlc_timeout_tx_weight(*f), r <= 1000
+    ensures r == spec_htlc_timeout_tx_weight(*f), 0 < r <= 1000
 { unimplemented!() }
 #[verifier::external_body]
 pub fn htlc_success_tx_weight(f: &ChannelTypeFeatures) -> (r: u64)
-    ensures r == spec_htlc_success_tx_weight(*f), r <= 1000
+    ensures r == spec_htlc_success_tx_weight(*f), 0 < r <= 1000
 { unimplemented!() }
 
 // validate_delay builds its tag with format!("policy-channel-contest-delay-range-{}", name)
